@@ -470,6 +470,36 @@ def rule_c(ctx: Context, R: Reporter):
             if mc in tg or any(isinstance(t, FuncInfo) and t.cls is mc and t.is_classmethod for t in tg):
                 n_sites += 1
     R.floor("C14.c", "creation sites of mode statistics", n_sites, 3)
+    # who-may-write: the fitted quantities and the factors derived from them in the constructor are never
+    # re-bound or written in place from outside the class (the inverse / Cholesky factor would no longer
+    # belong to the stored covariance, the location would no longer be the fitted one)
+    fields = set()
+    for n in walk_no_nested(init.node):
+        if isinstance(n, ast.Assign):
+            for t in n.targets:
+                if isinstance(t, ast.Attribute) and isinstance(t.value, ast.Name) and t.value.id == "self":
+                    fields.add(t.attr)
+    n_w = 0
+    for fi in ctx.prog.functions.values():
+        if fi.cls is mc:
+            continue
+        fl = flow_of(fi.node)
+        for n in walk_no_nested(fi.node):
+            tgts = n.targets if isinstance(n, ast.Assign) else ([n.target] if isinstance(n, (ast.AugAssign, ast.AnnAssign)) else [])
+            outs = [k.value for c in ([n] if isinstance(n, ast.Call) else []) for k in c.keywords if k.arg == "out"]
+            for t in list(tgts) + outs:
+                base = t
+                while isinstance(base, ast.Subscript):
+                    base = base.value
+                if isinstance(base, ast.Attribute) and base.attr in fields and not (isinstance(base.value, ast.Name) and base.value.id == "self"):
+                    at = fl.node_containing(n)
+                    types = ctx.res.expr_types(fi, base.value, at)
+                    if mc in types or (not types and "mode" in norm_text(base.value)):
+                        n_w += 1
+                        R.check("C14.c", "mode statistics are written only by their validating constructor", False, fi, n,
+                                msg=f"{fi.short}: `{unparse(n)[:70]}` changes `{base.attr}` of a fitted {mc.name} after construction: the mode handed to the kernel is no longer the one "
+                                    f"fitted from the cluster's particles (and the precomputed inverse / Cholesky factors no longer match)", key=f"mode-attr-write:{fi.short}:{base.attr}")
+    R.check("C14.c", "no function outside the mode class writes its fitted attributes", n_w == 0, init, init.node, key="mode-attr-writers")
 
 
 # ------------------------------------------------------------------ C14.d
@@ -810,6 +840,7 @@ def variants():
         Variant("e-cap-off-by-one", "bad", replace_expr(core, "SamplerCore.__init__", "config.n_max_clusters - 1", "config.n_max_clusters"), ["C14.e"], quick=True),
         Variant("h-adapt-by-rank", "bad", edit("tempest/mcmc.py", "BaseMCMCRunner.run", _adapt_by_rank), ["C14.h"], quick=True),
         Variant("h-benign-enumerate-modes", "benign", edit("tempest/mcmc.py", "BaseMCMCRunner.run", _adapt_enum_modes)),
+        Variant("c-clip-means-after-fit", "bad", insert_before(tr, "Trainer.run", "return mode_stats", "mode_stats.means = np.clip(mode_stats.means, 1e-4, 1 - 1e-4)"), ["C14.c"], quick=True),
         Variant("benign-rename-refit", "benign", alpha_rename(tr, "Trainer.run", "refit", "do_fit"), quick=True),
         Variant("benign-rename-labels", "benign", alpha_rename(tr, "Trainer.run", "labels", "lab")),
     ]
